@@ -5,8 +5,8 @@ package otter
 // In-package accessors for the verification harness (dropped into a scratch copy only).
 
 import (
-	"math"
 	"fmt"
+	"math"
 	"unsafe"
 
 	"github.com/maypok86/otter/v2/internal/deque"
@@ -285,4 +285,10 @@ func VerifPolicyNodes[K comparable, V any](cc *Cache[K, V]) []VerifPolicyNode[K,
 		out = append(out, VerifPolicyNode[K, V]{n.Key(), 2, n.Weight(), n.Value(), n.IsAlive()})
 	}
 	return out
+}
+
+// VerifTableStats: how often the cache's key index grew and shrank, and its current number of root buckets.
+func VerifTableStats[K comparable, V any](cc *Cache[K, V]) (growths, shrinks, buckets int) {
+	g, s := cc.cache.hashmap.VerifResizes()
+	return g, s, cc.cache.hashmap.VerifTableLen()
 }
